@@ -57,15 +57,21 @@ Fixpoint led (l : list event) (q : N) (s : bool) : Prop :=
 Definition drop_ptr (p : N) (l : list (N * bool)) : list (N * bool) :=
   filter (fun x => negb (N.eqb (fst x) p)) l.
 
+(* one event applied to the executable ledger (the driver folds it over the implementation's events) *)
+Definition led_step (e : event) (acc : list (N * bool)) : list (N * bool) :=
+  match e with
+  | EvAlloc p r => (p, r) :: acc
+  | EvSpawn p r => (p, r) :: acc
+  | EvRem p => drop_ptr p acc
+  | EvReclaim p => drop_ptr p acc
+  | EvFin _ => acc
+  | EvViol => acc
+  end.
+
 Fixpoint led_list (l : list event) : list (N * bool) :=
   match l with
   | [] => []
-  | EvAlloc p r :: t => (p, r) :: led_list t
-  | EvRem p :: t => drop_ptr p (led_list t)
-  | EvReclaim p :: t => drop_ptr p (led_list t)
-  | EvFin _ :: t => led_list t
-  | EvSpawn p r :: t => (p, r) :: led_list t
-  | EvViol :: t => led_list t
+  | e :: t => led_step e (led_list t)
   end.
 
 (* ------------------------------------------------------------------ the registry *)
